@@ -428,3 +428,49 @@ Proof.
       * rewrite Ez. reflexivity.
       * intros e He. rewrite Ez. right; exact He.
 Qed.
+
+(* ---- new_at ---- *)
+Lemma J_new_at n t ts : n <> 0 -> t <> 0 -> J (cq_new_at n t ts).
+Proof.
+  intros Hn Ht.
+  assert (Hs : slot t (ts / t * t) = ts / t) by (unfold slot; apply N.div_mul; assumption).
+  constructor; cbn [cq_new_at qn qt buckets t0 t1 head]; try assumption.
+  - apply repeat_length.
+  - rewrite Hs. lia.
+  - reflexivity.
+  - rewrite Hs. reflexivity.
+  - intros i b H. apply nth_error_repeat in H. subst b. constructor.
+  - intros i b e H Hin. apply nth_error_repeat in H. subst b. destruct Hin.
+Qed.
+
+Lemma R_new_at n t ts : n <> 0 -> t <> 0 -> R (cq_new_at n t ts) (sp_new_at ts) [].
+Proof.
+  intros Hn Ht. constructor; try (cbn; reflexivity).
+  - apply J_new_at; assumption.
+  - cbn [cq_new_at buckets sp_new_at s_rest]. rewrite concat_repeat_nil. constructor.
+  - intros i b H. cbn in H. apply nth_error_repeat in H. subst b. constructor.
+  - constructor.
+  - unfold pend. cbn [cq_new_at zero buckets]. rewrite concat_repeat_nil. intros e [].
+  - unfold pend. cbn [cq_new_at zero buckets]. rewrite concat_repeat_nil. constructor.
+  - intros e [].
+  - cbn [cq_new_at buckets]. rewrite concat_repeat_nil. intros e [].
+  - unfold pend. cbn [cq_new_at zero buckets qlen]. rewrite concat_repeat_nil. reflexivity.
+  - cbn [cq_new_at t0 tcur]. rewrite N.mul_comm. apply N.mul_div_le. assumption.
+  - intros t' i e [].
+  - intros t' i [].
+Qed.
+
+(* ---- peek_time ---- *)
+Lemma R_peek q s hs : R q s hs -> peek_time q = sp_peek s.
+Proof.
+  intros HR. pose proof (R_fetch q s hs HR) as H.
+  pose proof HR as [HJ Hz Htc Hnx Hp Hbs Hrs Hids Hnd Hzt Hbt Hlen Ht0 Hhs Hhid].
+  unfold peek_time, sp_peek. unfold fetch_next, sp_fetch in H.
+  replace (s_zero s) with (zero q) in * by exact Hz.
+  destruct (qlen q =? 0) eqn:El.
+  - destruct (zero q) as [|x z]; [|destruct H as [H _]; discriminate].
+    destruct (s_rest s) as [|y r]; [reflexivity|]. destruct H as [H _]; discriminate.
+  - apply N.eqb_neq in El. destruct (zero q) as [|x z] eqn:Ez; [|reflexivity].
+    destruct (scan_result q s hs HR Ez El) as [qm [x [r0 [Hit _]]]]. rewrite Hit in *.
+    destruct (s_rest s) as [|y r]; destruct H as [H _]; [discriminate|]. injection H as _ <-. reflexivity.
+Qed.
